@@ -15,5 +15,6 @@ import (
 	_ "verif/props/c13"
 	_ "verif/props/c14"
 	_ "verif/props/c15"
+	_ "verif/props/c18"
 	_ "verif/props/c19"
 )
